@@ -80,6 +80,7 @@ Lemma validate_jump_inl counter t : validate_jump fold code counter = inl t -> t
 Proof.
   unfold validate_jump. destruct (as_word (fold counter)) as [w|]; [|discriminate].
   destruct (two32 <=? w); [discriminate|].
+  destruct (N.of_nat (length code) <=? w); [discriminate|].
   destruct (nth_error code (N.to_nat w)) as [i|] eqn:E; [|discriminate].
   destruct (is_jumpdest i) eqn:Ej; [|discriminate]. intros [= <-]. split.
   - assert (H : (N.to_nat w < length code)%nat) by (apply nth_error_Some; congruence). unfold len. lia.
